@@ -27,6 +27,7 @@ KINDS = {
     "i8": "int64",
     "u1": "uint8",
     "i4": "int32",
+    "f4": "float32",
     "b1": "bool",
     "str": "StringDType",
     "U": "fixed-width unicode",
@@ -59,6 +60,10 @@ def np_array(kind, toks):
         v = big[::2]
         v.flags.writeable = False
         return v
+    if form == "npstring":
+        # NumPy's own variable-width string type, dtype "T" = StringDType() WITHOUT the library's na_object: what
+        # np.array(values, "T") or astype("T") gives; such a column is a string column like any other
+        return np.array(a.tolist(), dtype=np.dtypes.StringDType()) if isinstance(a.dtype, np.dtypes.StringDType) else a
     if form == "swapped":
         # the other byte order (what data read from a big-endian binary format looks like)
         return a.astype(a.dtype.newbyteorder()) if a.dtype.kind in "iufMm" and a.dtype.itemsize > 1 else a
@@ -78,6 +83,8 @@ def _np_array(kind, toks):
         return np.array([int(t) for t in toks], dtype="uint8")
     if kind == "i4":
         return np.array([int(t) for t in toks], dtype="int32")
+    if kind == "f4":
+        return np.array([np.nan if t is None else float(t) for t in toks], dtype="float32")
     if kind == "b1":
         return np.array([bool(t) for t in toks], dtype="bool")
     if kind == "str":
@@ -273,6 +280,8 @@ A = {
         "thorough": [0, 1, 2, -1, -2, 9007199254740993, -9223372036854775808, 2305843009213693951],
         "key": [0, 1, 2],
     },
+    # single precision: values that are exact in float32
+    "f4": {"quick": [None, "1.5", "2.5", "-inf"], "thorough": [None, "1.5", "2.5", "-inf", "0.0", "-0.0"], "key": [None, "1.5", "2.5"]},
     "i4": {"quick": [0, 1, -2147483648, 2147483647], "thorough": [0, 1, -2147483648, 2147483647, -1], "key": [0, 1, -2147483648]},
     "u1": {"quick": [0, 5, 200], "thorough": [0, 5, 200], "key": [0, 5, 200]},
     "b1": {"quick": [False, True], "thorough": [False, True], "key": [False, True]},
@@ -314,7 +323,7 @@ def seqs(alpha, nmin, nmax):
 
 def order_key(kind):
     """Total order on non-missing tokens of a kind, as the properties state it."""
-    if kind == "f8":
+    if kind in ("f8", "f4"):
         return float
     if kind in ("i8", "u1", "i4", "obj"):
         return lambda t: t
